@@ -701,11 +701,18 @@ func (s *simDS) Close() error {
 	already := s.closed
 	s.closed = true
 	oc := s.onClose
+	var ferr error
+	if !already && w.DiskFault != nil {
+		// the datastore is released all the same, the error is what the caller gets to see
+		if ferr = w.DiskFault(s.inc.Node, s.kind+"-close", s.space, ""); ferr != nil {
+			w.stat("disk-error")
+		}
+	}
 	w.mu.Unlock()
 	if !already && oc != nil {
 		oc()
 	}
-	return nil
+	return ferr
 }
 
 var _ datastore.Datastore = (*simDS)(nil)
